@@ -3,6 +3,7 @@ package main
 import (
 	"encoding/hex"
 	"fmt"
+	"os"
 	"go/types"
 	"sort"
 	"strings"
@@ -69,6 +70,28 @@ func init() {
 		st.addPC(Eq(ln, c))
 		st.wobj(v.Obj).Len = c
 		return Slice{Obj: v.Obj, Off: v.Off, Len: c, Cap: c}
+	}
+	// vBufC(name, n, maxSpare): n bytes with 0..maxSpare bytes of spare capacity, case-split
+	harnessAPI["vBufC"] = func(e *Engine, st *State, a []Value, ci ssa.CallInstruction) Value {
+		name := e.cstr(st, a[0])
+		n, sp := int(a[1].(BV).T.C), int(a[2].(BV).T.C)
+		if concreteInputs != nil || sp == 0 {
+			return e.inputBytes(st, name, n, n, sp)
+		}
+		full := e.inputName(st, name)
+		sv := Var("in_"+full+"_spare", SBV(64))
+		k := sp
+		for i := 0; i < sp; i++ {
+			if st.decide(Eq(sv, U64(uint64(i)))) {
+				k = i
+				break
+			}
+		}
+		v := e.inputBytes(st, name, n, n, sp).(Slice)
+		st.addPC(Eq(sv, U64(uint64(k))))
+		c := U64(uint64(n + k))
+		st.wobj(v.Obj).Len = c
+		return Slice{Obj: v.Obj, Off: v.Off, Len: v.Len, Cap: c}
 	}
 	harnessAPI["vSplit"] = func(e *Engine, st *State, a []Value, ci ssa.CallInstruction) Value {
 		n := a[0].(BV).T
@@ -290,6 +313,27 @@ func init() {
 		}
 		return Bool{tTrue}
 	}
+	// vFieldBytes(p, i): the byte array held in field i of the struct p points to, as a slice
+	// (lets models work on types they cannot name, e.g. internal packages)
+	harnessAPI["vFieldBytes"] = func(e *Engine, st *State, a []Value, ci ssa.CallInstruction) Value {
+		p := asPtr(a[0])
+		i := int(a[1].(BV).T.C)
+		if p.Obj == 0 {
+			panic(goPanic{"nil-deref", "nil pointer dereference (model field access)"})
+		}
+		o := st.obj(p.Obj)
+		v := getPath(o.Cells[p.Cell], p.Path)
+		sv, ok := v.(Struct)
+		if !ok {
+			panic(abortSignal{"vFieldBytes on non-struct"})
+		}
+		av, ok := sv.F[i].(ArrayV)
+		if !ok {
+			panic(abortSignal{"vFieldBytes: field is not an array"})
+		}
+		ao := st.obj(av.Obj)
+		return Slice{Obj: av.Obj, Off: U64(0), Len: ao.Len, Cap: ao.Len}
+	}
 	harnessAPI["vExpectPanic"] = func(e *Engine, st *State, a []Value, ci ssa.CallInstruction) Value {
 		st.expectPanic = true
 		return nil
@@ -429,8 +473,13 @@ func (e *Engine) ufApply(st *State, name string, outBits int, parts Slice, injec
 		t = UF("uf_"+sig, SBV(outBits), args...)
 	}
 	// injectivity: inverse per argument, and a tag that separates length signatures
+	// functions named perm_* are permutations of their domain (e.g. inversion): injective, but
+	// their range is not kept apart from other functions' ranges
+	perm := strings.HasPrefix(name, "perm_")
 	if len(args) > 0 {
-		taggedUF["uf_"+sig] = true
+		if !perm {
+			taggedUF["uf_"+sig] = true
+		}
 		if injective {
 			injectiveUF["uf_"+sig] = true
 		}
@@ -443,6 +492,9 @@ func (e *Engine) ufApply(st *State, name string, outBits int, parts Slice, injec
 	}
 	// ranges of different function symbols (and of different input-length signatures of one
 	// function) with the same output width are disjoint: ideal, unrelated functions
+	if perm {
+		return t
+	}
 	tagID, ok := ufTags[sig]
 	if !ok {
 		tagID = len(ufTags) + 1
@@ -636,6 +688,12 @@ func (e *Engine) assertion(st *State, c *Term, label, kind, msg string) {
 	case Sat:
 		rec.Result = "violated"
 		rec.Cex = cex
+		if os.Getenv("GOSMT_DUMP_PC") != "" {
+			for i, c := range st.pc {
+				fmt.Fprintf(os.Stderr, "   pc[%d] %s\n", i, trunc(c.String(), 260))
+			}
+			fmt.Fprintf(os.Stderr, "   goal %s\n", trunc(c.String(), 400))
+		}
 		if st.unchecked || st.degraded {
 			rec.Msg += " [path has unchecked branches or havocked calls]"
 		}
